@@ -28,7 +28,13 @@ TLiteral == /\ Ev("cfg.literal") /\ UNCHANGED t
             /\ Flag(E.ok, "port-range / bandwidth literal does not round-trip through its textual form")
 TTemplate == /\ Ev("cfg.template") /\ UNCHANGED t
              /\ Flag(E.ok, "templated document does not render to the document with the values written out")
-TNext == TReset \/ TFlow \/ TFormats \/ TStrict \/ TDomain \/ TPort \/ TLiteral \/ TTemplate
+\* a template that walks parseNumberRange / parseNumberRangePair renders exactly the expansion the specification gives
+TRange == /\ Ev("cfg.range") /\ UNCHANGED t
+          /\ LET o == RangePairOutcome(E.segs_a, E.segs_b) IN
+             Flag(IF E.pair THEN (E.err = o.err /\ (~o.err => E.pairs = o.pairs))
+                  ELSE (~E.err /\ E.numbers = ExpandSegs(E.segs_a)),
+                  "number-range literal expanded differently from the order written (sorted, merged or mis-paired local / remote ports)")
+TNext == TRange \/ TReset \/ TFlow \/ TFormats \/ TStrict \/ TDomain \/ TPort \/ TLiteral \/ TTemplate
 TSpec == TInit /\ [][TNext]_<<l, bad, t>>
 NoMismatch == bad = {}
 HWM == TLCSet(1, IF TLCGet(1) < l THEN l ELSE TLCGet(1))
